@@ -1007,3 +1007,46 @@ def t_walker_coverage(facts, res, tier):
         res.fail("T-WALKER-COVERAGE:not-entered:%s" % k2, where,
                  "the path walker never enters this branch and it is not tabled as dead: the path rules do not see the code in it (either the "
                  "walker loses paths here, or the branch is dead code that has to be confirmed and tabled)")
+
+
+# ----------------------------------------------------------------------------- C07 / C08 (directive recognition)
+
+DIRECTIVE_WORDS = {"#ifdef", "#ifndef", "#undef", "#define", "#include", "#if", "#elif", "#else", "#endif", "#error"}
+
+
+@rule("T-CPP-DIRECTIVE-EXACT", floor=6,
+      text="the preprocessor recognises a directive by its whole first word: in the directive dispatch of process() no directive is selected by "
+           "`line.starts_with(\"#word\")` (which also accepts `#undefine X` as `#undef X` and `#ifdefined` as `#ifdef`), only by comparing the "
+           "first word or matching on it")
+def t_cpp_directive_exact(facts, res, tier):
+    import rules_cpp
+    fn, blk, paths, state_var = rules_cpp.process_paths(facts)
+    seen = set()
+    for n in walk(blk["then"]):
+        k = n.get("k")
+        if k == "mcall" and n["method"] == "starts_with" and n["args"] and n["args"][0].get("k") == "lit" and str(n["args"][0]["v"]) in DIRECTIVE_WORDS:
+            w = str(n["args"][0]["v"])
+            key = "T-CPP-DIRECTIVE-EXACT:%s" % w
+            if key in seen:
+                continue
+            seen.add(key)
+            res.inst(key, True, {"how": "prefix"})
+            res.fail(key, facts.where(fn, n),
+                     "the directive %s is recognised by `%s.starts_with(\"%s\")`: any longer word with that prefix (`%sine X`, `%sined`) is taken for it" % (
+                         w, expr_text(n["recv"]), w, w, w))
+        if k == "binary" and n["op"] == "==":
+            for side in (n["l"], n["r"]):
+                if side.get("k") == "lit" and str(side.get("v")) in DIRECTIVE_WORDS:
+                    key = "T-CPP-DIRECTIVE-EXACT:%s" % side["v"]
+                    if key not in seen:
+                        seen.add(key)
+                        res.inst(key, True, {"how": "whole word"})
+        if k == "match":
+            for a in n["arms"]:
+                t = pat_text(a["pat"])
+                for w in DIRECTIVE_WORDS:
+                    if '"%s"' % w in t:
+                        key = "T-CPP-DIRECTIVE-EXACT:%s" % w
+                        if key not in seen:
+                            seen.add(key)
+                            res.inst(key, True, {"how": "match arm"})
